@@ -44,6 +44,97 @@ def point_tables():
     return [pts[i] for i in range(len(pts))], setup
 
 
+_SETUP = [None]
+
+
+def setup_info():
+    """the set-up skeleton as the translator sees it (items, opaque conditions); None when the translation fails"""
+    if _SETUP[0] is None:
+        import importlib, sys
+        sys.path.insert(0, os.path.join(VERIF, "translate"))
+        try:
+            m = importlib.import_module("mainloop2coq")
+            _, info = m.translate()
+            _SETUP[0] = dict(items=info["setup"], conds=info["setup_conds"], points=info["setup_points"])
+        except Exception as e:
+            _SETUP[0] = dict(error=str(e))
+    return None if "error" in _SETUP[0] else _SETUP[0]
+
+
+def setup_oracle(labels, reached_sim, rc=0):
+    """which opaque conditions of the set-up held (and which opaque statements threw) in a real run, inferred from its
+    label trace: depth-first search for an environment under which the skeleton passes exactly the set-up labels of
+    the run and then reaches the simulation part (reached_sim) or returns.  Only used to *choose* the environment the
+    extracted model is run with; a wrong choice shows up as a disagreement, never as a silent pass.
+    Returns (true conditions, throwing statements) or None."""
+    info = setup_info()
+    if info is None:
+        return None
+    want = [l for l in labels if l.startswith("setup:")]
+    pts = info["points"]
+
+    def lab(it):
+        return pts[-int(re.search(r"-?\d+", it[1]).group(0)) - 1]
+
+    def seq(items, j, i, tl, xl, thrw, intry):
+        """generator of (i', tl', xl', kind) for items[j:], kind in norm / ret / thr"""
+        if j == len(items):
+            yield (i, tl, xl, "norm")
+            return
+        it = items[j]
+        if it[0] == "call":
+            if it[1].startswith("(Point"):
+                if i < len(want) and want[i] == lab(it):
+                    yield from seq(items, j + 1, i + 1, tl, xl, thrw, intry)
+                return
+            yield from seq(items, j + 1, i, tl, xl, thrw, intry)
+        elif it[0] == "setabort":
+            yield from seq(items, j + 1, i, tl, xl, thrw, intry)
+        elif it[0] == "return":
+            yield (i, tl, xl, "ret%d" % it[1])
+        elif it[0] == "opq":
+            yield from seq(items, j + 1, i, tl, xl, thrw, intry)
+            if thrw and intry:
+                yield (i, tl, xl + [it[1]], "thr")
+        elif it[0] == "if":
+            m = re.match(r"\(COpq (\d+)\)", it[1])
+            for val in (False, True):
+                br = it[2] if val else it[3]
+                tl2 = tl + [int(m.group(1))] if (m and val) else tl
+                for (i2, tl3, xl3, kd) in seq(br, 0, i, tl2, xl, thrw, intry):
+                    if kd == "norm":
+                        yield from seq(items, j + 1, i2, tl3, xl3, thrw, intry)
+                    else:
+                        yield (i2, tl3, xl3, kd)
+            if m and thrw and intry:
+                yield (i, tl, xl + [int(m.group(1))], "thr")
+        elif it[0] == "try":
+            for (i2, tl2, xl2, kd) in seq(it[1], 0, i, tl, xl, thrw, True):
+                if kd == "norm":
+                    yield from seq(items, j + 1, i2, tl2, xl2, thrw, intry)
+                elif kd.startswith("ret"):
+                    yield (i2, tl2, xl2, kd)
+                else:
+                    for (i3, tl3, xl3, kd3) in seq(it[2], 0, i2, tl2, xl2, thrw, intry):
+                        if kd3 == "norm":
+                            yield from seq(items, j + 1, i3, tl3, xl3, thrw, intry)
+                        else:
+                            yield (i3, tl3, xl3, kd3)
+
+    for thrw in (False, True):
+        for (i, tl, xl, kd) in seq(info["items"], 0, 0, [], [], thrw, False):
+            if i == len(want) and ((kd == "norm" and reached_sim) or (kd == "ret%d" % rc and not reached_sim)):
+                return (tl, xl)
+    return None
+
+
+def with_oracle(cfg, real):
+    """cfg extended by the environment of the set-up inferred from a real run of it (so that the model executes the
+    generated set-up skeleton as well); unchanged when the skeleton is unavailable or no environment fits"""
+    orc = setup_oracle(real["labels"], "sim:start" in real["labels"], real["rc"])
+    return dict(cfg, _oracle=orc) if orc is not None else cfg
+
+
 def cmdline(cfg, out):
     a = ["-s", str(cfg["n"]), "-N", str(cfg["N"]), "-T", str(cfg["T"]), "-n", str(cfg["outstep"]),
          "--SavePhaseSpace", str(cfg["h5save"]), "--RenormalizeCharge", str(cfg["renorm"]),
@@ -56,15 +147,15 @@ def cmdline(cfg, out):
         a += ["-v"]
     if out:
         a += ["-o", out]
-    return a
+    return a + list(cfg.get("extra", []))
 
 
-def run_real(tg, cfg, out, sig_at=None, rep=False, timeout=60, want_trace=True, extra_env=None):
+def run_real(tg, cfg, out, sig_at=None, rep=False, timeout=60, want_trace=True, extra_env=None, trace_path=None):
     """runs the binary (always under timeout); returns dict rc, log (stdout+stderr), labels"""
     env = vp_build.xdg_env()
     for k in ("INOVESA_VERIF_SIGINT_AT", "INOVESA_VERIF_SIGINT_REPEAT", "INOVESA_VERIF_TRACE"):
         env.pop(k, None)
-    trace = (out or os.path.join(VERIF, ".cache", "tmp_trace")) + ".trace"
+    trace = trace_path or ((out or os.path.join(VERIF, ".cache", "tmp_trace")) + ".trace")
     if want_trace:
         env["INOVESA_VERIF_TRACE"] = trace
     if sig_at is not None:
@@ -74,7 +165,7 @@ def run_real(tg, cfg, out, sig_at=None, rep=False, timeout=60, want_trace=True, 
     if extra_env:
         env.update(extra_env)
     for p in (out, (out or "") + ".cfg", trace):
-        if p and os.path.exists(p):
+        if p and os.path.isfile(p):
             os.remove(p)
     cmd = ["timeout", str(timeout), tg["inovesa"]] + cmdline(cfg, out)
     r = subprocess.run(cmd, capture_output=True, text=True, env=env)
@@ -136,6 +227,16 @@ def run_model(cases):
     """cases: list of (id, cfg, at, rep, pc0) -> {id: dict(trace=[(label idx, k)], file=[(kind, step, rows)], log, status, k, abort, pc)}"""
     lines = []
     for (cid, cfg, at, rep, pc0) in cases:
+        orc = cfg.get("_oracle")
+        if orc is not None:
+            # the whole program, set-up included (generated main_setup), under the environment inferred from the
+            # uninterrupted run of this configuration
+            tl, xl = orc
+            lines.append("full %s %d %d %d %d %d %d %d %d %d %d %s %d %s" % (
+                cid, laststep(cfg), cfg["outstep"], cfg["h5save"], cfg["renorm"], 1 if cfg.get("hdf", True) else 0,
+                1 if cfg["wake"] else 0, 1 if cfg.get("dynrf") else 0, -1 if at is None else at, 1 if rep else 0,
+                len(tl), " ".join(str(x) for x in tl), len(xl), " ".join(str(x) for x in xl)))
+            continue
         lines.append("run %s %d %d %d %d %d %d %d %d %d %d" % (
             cid, laststep(cfg), cfg["outstep"], cfg["h5save"], cfg["renorm"], 1 if cfg.get("hdf", True) else 0,
             1 if cfg["wake"] else 0, 1 if cfg.get("dynrf") else 0, -1 if at is None else at, 1 if rep else 0, pc0))
@@ -155,11 +256,19 @@ def run_model(cases):
         elif p[0] == "end":
             cur = None
         elif p[0] == "trace":
-            cur["trace"] = [tuple(int(x) for x in t.split(":")) for t in p[1:]]
+            tr = [tuple(int(x) for x in t.split(":")) for t in p[1:]]
+            cur["trace"] = [t for t in tr if t[0] >= 0]
+            cur["setup_trace"] = [-t[0] - 1 for t in tr if t[0] < 0]      # indices into setup_point_names
+        elif p[0] == "kind":
+            cur["kind"] = int(p[1])
         elif p[0] == "file":
             cur["file"] = [(t.split(":")[0], int(t.split(":")[1]), int(t.split(":")[2])) for t in p[1:]]
         elif p[0] == "log":
             cur["log"] = p[1:]
+        elif p[0] == "rf":
+            cur["rf"] = [(int(t.split(":")[0]), [int(x) for x in t.split(":")[1].split(",") if x != ""]) for t in p[1:]]
+        elif p[0] == "pending":
+            cur["pending"] = [int(x) for x in p[1:]]
         elif p[0] in ("k", "abort", "pc"):
             cur[p[0]] = int(p[1])
         elif p[0] == "status":
@@ -184,6 +293,15 @@ def compare_with_model(cfg, real, h, mo, points, nsetup):
     """label trace, exit status, closing message, dataset lengths and time axes of one real run
     against the model outcome; returns a list of human-readable differences (empty = agree)"""
     dif = []
+    if cfg.get("_oracle") is not None and setup_info() is not None:
+        # the model ran the generated set-up as well: its hook points must be the real run's
+        spts = setup_info()["points"]
+        ms = [spts[i] for i in mo.get("setup_trace", [])]
+        rs = [l for l in real["labels"] if l.startswith("setup:")]
+        if ms != rs:
+            dif.append("set-up label trace differs: real %s..., model %s... (lengths %d/%d)" % (rs[-2:], ms[-2:], len(rs), len(ms)))
+        if mo.get("kind") != 0:
+            dif.append("model: the program does not reach the end of main (kind %s)" % mo.get("kind"))
     sim = real["labels"][nsetup:]
     mtrace = [points[i] for i, _ in mo["trace"]]
     if sim != mtrace:
